@@ -645,3 +645,124 @@ def rule_lark_vocab(P):
         r.undecided(f, ctor[0], f"V = `{norm(v)}` is not a comprehension over self.terminals", construct="convert: token vocabulary")
     r.min_instances = 1
     return r
+
+
+# ---------------------------------------------------------------- NS-WRAPPERS
+
+
+def _ctor_sig(P, m, e, wrappers):
+    """(label, arity, {pos: const}) of a fresh-name constructor expression, or None."""
+    if isinstance(e, ast.Call) and isinstance(e.func, ast.Name) and e.func.id in wrappers:
+        return (e.func.id, wrappers[e.func.id], ())
+    if isinstance(e, ast.Tuple) and any(isinstance(x, ast.Constant) and isinstance(x.value, str) for x in e.elts) \
+            and not any(isinstance(x, ast.Starred) for x in e.elts):
+        consts = tuple((i, x.value) for i, x in enumerate(e.elts) if isinstance(x, ast.Constant))
+        return (norm(e), len(e.elts), consts)
+    return None
+
+
+def rule_ns_wrappers(P):
+    r = RuleResult("NS-WRAPPERS", "the grammar transformations make fresh nonterminal names by wrapping an old name: in a namedtuple "
+                   "(NotNull, Slash) or in a tuple tagged with a constant ((x, 'bot')). namedtuples compare and hash as plain tuples, so "
+                   "two wrappers that put names *directly* into a grammar's nonterminal set must differ in arity or in a constant "
+                   "component; otherwise W1(X) == W2(X) and the rules of two different nonterminals merge as soon as one transformation "
+                   "is applied to the output of the other", "fresh names made by different transformations never coincide")
+    m = P.module("cfg.py")
+    wrappers = {}
+    for st in m.tree.body:
+        if isinstance(st, ast.Assign) and len(st.targets) == 1 and isinstance(st.targets[0], ast.Name) and isinstance(st.value, ast.Call) \
+                and W.call_name(st.value) == "namedtuple" and len(st.value.args) >= 2:
+            fl = st.value.args[1]
+            if isinstance(fl, ast.Constant) and isinstance(fl.value, str):
+                n = len(fl.value.replace(",", " ").split())
+            elif isinstance(fl, (ast.List, ast.Tuple)):
+                n = len(fl.elts)
+            else:
+                continue
+            wrappers[st.targets[0].id] = n
+    used = {}  # sig -> (func, node)
+
+    def resolve(f, e, depth=0):
+        """constructor signatures that expression `e` (an argument of .add in f) may evaluate to; only flows that can be followed"""
+        if depth > 4:
+            return
+        s = _ctor_sig(P, m, e, wrappers)
+        if s is not None:
+            yield s, e
+            return
+        if isinstance(e, ast.IfExp):
+            yield from resolve(f, e.body, depth + 1)
+            yield from resolve(f, e.orelse, depth + 1)
+            return
+        if isinstance(e, ast.Starred):
+            yield from resolve(f, e.value, depth + 1)
+            return
+        if isinstance(e, (ast.GeneratorExp, ast.ListComp)):
+            yield from resolve(f, e.elt, depth + 1)
+            return
+        if isinstance(e, ast.Name):
+            # a list filled by  name.append(<expr>)
+            g = f
+            while g is not None:
+                for x in walk_live(g.node):
+                    if isinstance(x, ast.Call) and isinstance(x.func, ast.Attribute) and x.func.attr == "append" and W.is_name(x.func.value, e.id) and x.args:
+                        yield from resolve(g, x.args[0], depth + 1)
+                g = g.outer
+            return
+        if isinstance(e, ast.Call) and isinstance(e.func, ast.Name):
+            name = e.func.id
+            # a parameter (of f or an enclosing function) whose default is a wrapper:  rename=NotNull
+            g = f
+            while g is not None:
+                a = g.node.args
+                pos = a.posonlyargs + a.args
+                defaults = dict(zip([x.arg for x in pos[len(pos) - len(a.defaults):]], a.defaults))
+                defaults.update({k.arg: d for k, d in zip(a.kwonlyargs, a.kw_defaults) if d is not None})
+                if name in defaults and isinstance(defaults[name], ast.Name) and defaults[name].id in wrappers:
+                    w = defaults[name].id
+                    yield (w, wrappers[w], ()), e
+                    return
+                g = g.outer
+            # a nested helper of f or of an enclosing function
+            g = f
+            while g is not None:
+                h = P.funcs.get(f"{g.qual}.<locals>.{name}") or next((x for x in P.funcs.values() if x.outer is g and x.name == name), None)
+                if h is not None:
+                    for x in walk_live(h.node):
+                        if isinstance(x, ast.Return) and x.value is not None:
+                            yield from resolve(h, x.value, depth + 1)
+                    return
+                g = g.outer
+
+    for f in P.funcs_in("cfg.py"):
+        if f.cls is None or f.cls.name != "CFG":
+            continue
+        for c in _adds(f):
+            if len(c.args) < 2:
+                continue
+            r.looked_at(f)
+            for a in c.args[1:]:
+                for s, node in resolve(f, a):
+                    used.setdefault(s, (f, node))
+    sigs = sorted(used)
+    r.note(f"wrappers declared: {sorted(wrappers.items())}; constructors that reach a CFG.add argument: {[s[0] for s in sigs]}")
+    if len(sigs) < 3:
+        r.undecided(P.func("cfg.py::CFG._push_null_weights"), m.tree, f"expected at least the three fresh-name constructors of today's tree "
+                    f"(NotNull, Slash, the tagged 'bot' tuple) to reach CFG.add; found {[s[0] for s in sigs]}", construct="fresh-name constructors")
+        return r
+    for i, s1 in enumerate(sigs):
+        for s2 in sigs[i + 1:]:
+            if s1[0] == s2[0]:
+                continue
+            c1, c2 = dict(s1[2]), dict(s2[2])
+            distinct = s1[1] != s2[1] or any(p in c2 and c2[p] != v for p, v in c1.items())
+            # a constant tag against an arbitrary component is not a guarantee, but a namedtuple component is an old symbol, and the
+            # library's tags ('bot') are not symbols it generates: accepted as distinct
+            if not distinct and (c1 or c2) and not (c1 and c2):
+                distinct = True
+            f2, n2 = used[s2]
+            r.add(f2, n2, distinct, "" if distinct else f"`{s1[0]}` (used in {used[s1][0].qual}) and `{s2[0]}` build equal tuples for the same "
+                  f"argument (same arity {s1[1]}, no distinguishing constant): applying one transformation to the other's output merges two nonterminals",
+                  construct=f"fresh names {s1[0]} vs {s2[0]}", slots=dict(a=s1[0], b=s2[0], arity=(s1[1], s2[1])))
+    r.min_instances = 3
+    return r
